@@ -914,6 +914,10 @@ func (e *Engine) intrinsic(name string, fn *ssa.Function, args []Value) (Value, 
 	case "vIsSymbolic":
 		return tb.Bool(true), true
 	case "vReplace": // contract substitution: calls of the named function run the harness function instead
+		if !e.funcNameExists(fn.Pkg, str(0)) {
+			// the hook would silently never fire (the function was renamed or removed by a change)
+			e.unmodelled("vReplace: the package under test has no function or method named " + str(0))
+		}
 		e.replaced[str(0)] = unwrapAny(args[1]).(FuncV)
 		return nil, true
 	case "vUnreplace":
@@ -944,6 +948,40 @@ func (e *Engine) intrinsic(name string, fn *ssa.Function, args []Value) (Value, 
 		return tb.ICmp("<", l, r), true
 	}
 	return nil, false
+}
+
+// funcNameExists: is there a package-level function or a method of a package-level type with this name?
+func (e *Engine) funcNameExists(pkg *ssa.Package, name string) bool {
+	if pkg == nil {
+		return true
+	}
+	if e.fnNames == nil {
+		e.fnNames = map[*ssa.Package]map[string]bool{}
+	}
+	names, ok := e.fnNames[pkg]
+	if !ok {
+		names = map[string]bool{}
+		for _, m := range pkg.Members {
+			switch x := m.(type) {
+			case *ssa.Function:
+				names[x.Name()] = true
+			case *ssa.Type:
+				for _, t := range []types.Type{x.Type(), types.NewPointer(x.Type())} {
+					ms := e.prog.MethodSets.MethodSet(t)
+					for i := 0; i < ms.Len(); i++ {
+						names[ms.At(i).Obj().Name()] = true
+					}
+				}
+				if named, ok := x.Type().(*types.Named); ok {
+					for i := 0; i < named.NumMethods(); i++ {
+						names[named.Method(i).Name()] = true
+					}
+				}
+			}
+		}
+		e.fnNames[pkg] = names
+	}
+	return names[name]
 }
 
 var _ = big.NewInt
